@@ -58,6 +58,25 @@ class CLock:
     def free_for(self, tid):
         return self.owner == 0
 
+    def can(self, tid, op):
+        """is the pending operation `op` of thread tid enabled?"""
+        return op not in ("acquire", "reacquire") or self.free_for(tid)
+
+    def state(self):
+        return (self.kind, self.owner)
+
+    def held_by(self, tid):
+        return self.owner == tid
+
+    def _drop(self, tid):               # Condition.wait: give the lock up completely
+        self.owner = 0
+        self.real.release()
+        return 1
+
+    def _restore(self, tid, saved):
+        self.real.acquire(False)
+        self.owner = tid
+
     def acquire(self, blocking=True, timeout=-1):
         if not blocking or timeout != -1:
             w = self.sched.park("tryacquire", self)
@@ -130,6 +149,165 @@ class CRLock(CLock):
     def locked(self):
         return self.owner != 0
 
+    def state(self):
+        return (self.kind, self.owner, self.count)
+
+    def _drop(self, tid):
+        saved, self.owner, self.count = self.count, 0, 0
+        self.real.release()
+        return saved
+
+    def _restore(self, tid, saved):
+        self.real.acquire(False)
+        self.owner, self.count = tid, saved
+
+    _is_owned = lambda self: True
+
+
+class CSemaphore(CLock):
+    """threading.Semaphore / BoundedSemaphore stand-in"""
+    kind = "Semaphore"
+
+    def __init__(self, ft, value=1, bounded=False):
+        CLock.__init__(self, ft)
+        if value < 0:
+            raise ValueError("semaphore initial value must be >= 0")
+        self.initial, self.value, self.bounded = value, value, bounded
+
+    def reset(self):
+        self.value = self.initial
+
+    def can(self, tid, op):
+        return op != "acquire" or self.value > 0
+
+    def state(self):
+        return (self.kind, self.value)
+
+    def acquire(self, blocking=True, timeout=None):
+        if not blocking or timeout is not None:
+            self.sched.park("tryacquire", self)
+            if self.value > 0:
+                self.value -= 1
+                return True
+            return False
+        self.sched.park("acquire", self)
+        if self.value <= 0:
+            self.sched.broken = "a thread was scheduled to acquire a semaphore whose value is 0"
+            raise RuntimeError(self.sched.broken)
+        self.value -= 1
+        return True
+
+    def release(self, n=1):
+        self.sched.park("release", self)
+        if self.bounded and self.value + n > self.initial:
+            raise ValueError("Semaphore released too many times")
+        self.value += n
+
+    def locked(self):
+        return self.value == 0
+
+
+class CEvent(CLock):
+    """threading.Event stand-in"""
+    kind = "Event"
+
+    def __init__(self, ft):
+        CLock.__init__(self, ft)
+        self.flag = False
+
+    def reset(self):
+        self.flag = False
+
+    def can(self, tid, op):
+        return op != "event-wait" or self.flag
+
+    def state(self):
+        return (self.kind, self.flag)
+
+    def is_set(self):
+        return self.flag
+
+    def set(self):
+        self.sched.park("event-set", self)
+        self.flag = True
+
+    def clear(self):
+        self.sched.park("event-clear", self)
+        self.flag = False
+
+    def wait(self, timeout=None):
+        self.sched.park("event-wait" if timeout is None else "event-timedwait", self)
+        return self.flag
+
+
+class CCondition(CLock):
+    """threading.Condition stand-in: wait() gives the lock up, sleeps until notified (FIFO), takes the lock again;
+    a wait with a timeout may also wake up by itself"""
+    kind = "Condition"
+
+    def __init__(self, ft, lock=None):
+        CLock.__init__(self, ft)
+        self.lock = lock if lock is not None else CRLock(ft)
+        self.waiters, self.notified, self.timed = [], set(), set()
+
+    def reset(self):
+        self.waiters, self.notified, self.timed = [], set(), set()
+
+    def can(self, tid, op):
+        return op != "waiting" or tid in self.notified or tid in self.timed
+
+    def state(self):
+        return (self.kind, tuple(self.waiters), tuple(sorted(self.notified)))
+
+    def acquire(self, *a, **kw):
+        return self.lock.acquire(*a, **kw)
+
+    def release(self):
+        return self.lock.release()
+
+    def wait(self, timeout=None):
+        w = self.sched.park("wait", self)
+        if not self.lock.held_by(w.tid):
+            raise RuntimeError("cannot wait on un-acquired lock")
+        saved = self.lock._drop(w.tid)
+        self.waiters.append(w.tid)
+        if timeout is not None:
+            self.timed.add(w.tid)
+        self.sched.park("waiting", self)
+        woke = w.tid in self.notified
+        self.notified.discard(w.tid)
+        self.timed.discard(w.tid)
+        if w.tid in self.waiters:
+            self.waiters.remove(w.tid)
+        self.sched.park("reacquire", self.lock)
+        self.lock._restore(w.tid, saved)
+        return woke
+
+    def wait_for(self, predicate, timeout=None):
+        result = predicate()
+        while not result:
+            if not self.wait(timeout) and timeout is not None:
+                return predicate()
+            result = predicate()
+        return result
+
+    def notify(self, n=1):
+        w = self.sched.park("notify", self)
+        if not self.lock.held_by(w.tid):
+            raise RuntimeError("cannot notify on un-acquired lock")
+        for t in self.waiters[:n]:
+            self.notified.add(t)
+        del self.waiters[:n]
+
+    def notify_all(self):
+        self.notify(len(self.waiters) + 1)
+
+    notifyAll = notify_all
+
+
+PASS_THROUGH = ("get_ident", "get_native_id", "current_thread", "main_thread", "local", "active_count", "enumerate", "TIMEOUT_MAX",
+                "ThreadError", "settrace", "setprofile", "stack_size", "excepthook", "ExceptHookArgs")
+
 
 class FakeThreading:
     """what the module under test sees as `threading`.  Lock() and RLock() are modelled; a lock that is created by a
@@ -140,6 +318,7 @@ class FakeThreading:
     def __init__(self, sched=None):
         self.sched = sched
         self.made = []
+        self.uncontrolled = set()
 
     def _create(self, cls):
         s = self.sched
@@ -153,11 +332,24 @@ class FakeThreading:
     def RLock(self):
         return self._create(CRLock)
 
+    def Condition(self, lock=None):
+        return self._create(lambda ft: CCondition(ft, lock))
+
+    def Semaphore(self, value=1):
+        return self._create(lambda ft: CSemaphore(ft, value))
+
+    def BoundedSemaphore(self, value=1):
+        return self._create(lambda ft: CSemaphore(ft, value, True))
+
+    def Event(self):
+        return self._create(CEvent)
+
     def __getattr__(self, name):
         if name.startswith("__"):
             raise AttributeError(name)
-        raise StructureDiffers("the code under test uses threading.%s; the specification (and the controlled scheduler) "
-                               "know threading.Lock and threading.RLock only" % name)
+        if name not in PASS_THROUGH:
+            self.uncontrolled.add(name)     # something the scheduler cannot control (Thread, Timer, Barrier, ...)
+        return getattr(threading, name)
 
 
 class Worker:
@@ -232,7 +424,9 @@ class Scheduler:
         out = set()
         for tid, w in self.workers.items():
             op, lk = w.pending
-            if op in ("release", "cs", "tryacquire", "create") or (op == "acquire" and lk.free_for(tid)):
+            if op in ("done", "crashed", "aborted", "start"):
+                continue
+            if lk is None or not hasattr(lk, "can") or lk.can(tid, op):
                 out.add(tid)
         return out
 
@@ -293,12 +487,12 @@ class patched_threading:
             self.saved.sched = None
 
 
-def load_under_factory(path, name):
+def load_under_factory(path, name, ft=None):
     """A private copy of a module, executed from its source file while `import threading` yields the
     controlled factory: locks the module creates when it is LOADED (module / class level) are controlled
     locks too.  sys.modules is touched only for the duration of the import and restored."""
     import importlib.util
-    ft = FakeThreading(None)
+    ft = ft if ft is not None else FakeThreading(None)
     spec = importlib.util.spec_from_file_location(name, path)
     m = importlib.util.module_from_spec(spec)
     saved = sys.modules.get("threading")
